@@ -159,6 +159,9 @@ class DictionaryDataBase(DataBase):
             Index of the data to be updated.
         """
         with self._lock:
+            if index not in self.database:
+                # Only stored data is updated; an index that has been removed is not created again.
+                return False
             self.database[index] = data
             return True
 
